@@ -191,18 +191,19 @@ PROPS['C03'] = {
 }
 PROPS['C04'] = {
     'units': [{'template': 'origin.rs', 'rlimit': 30, 'items': [r'^datalog::origin::']},
-              {'template': 'authz.rs', 'rlimit': 60, 'items': [r'^token::authorizer::Authorizer::authorize_inner$']},
+              {'template': 'authz.rs', 'rlimit': 60, 'items': [r'^token::authorizer::Authorizer::(authorize_inner|query_inner|query_all_inner)$']},
               {'template': 'engine.rs', 'rlimit': 30, 'items': [r'^datalog::(Rule::(find_match|check_match_all)|World::(query_match|query_match_all))$']}, _LOADB],
     'proved': 'scope -> trusted origins: from_scopes equals trusted_spec for all inputs (authority, own block and authorizer by default; changed only by `trusting authority`, `previous` or a public key), '
               'contains is the subset test deciding fact visibility. Decision composition (Authorizer::authorize_inner, for EVERY outcome of the engine oracles): every query is evaluated under exactly the specification '
               'trusted set of its position (authorizer checks and policies: authorizer scopes, origin authorizer; authority checks: block 0; checks of block b: block b); on Ok(i) every authorizer, authority and block check '
               'passes by its per-kind rule (check if: one matching alternative; check all: one alternative matching with no counter-example; reject if: NO alternative matches), i is the first policy with a matching '
               'alternative and it is an allow policy; NoMatchingPolicy is returned only when no policy matches; Unauthorized{Allow(i) | Deny(i)} only when i is the first matching policy of that kind; nothing but the symbol '
-              'table is modified. Engine entry points (unit engine, relative to oracles for the join iterator, Rule::apply and expression evaluation): World::query_match / query_match_all hand their arguments unchanged to '
+              'table is modified. Queries: query_inner evaluates the rule from the authorizer origin under trusted_spec(rule scopes, {authority, authorizer}) - never the authorizer-level scopes - and query_all_inner under the token-level set '
+              '(all blocks) when the rule has no scope and under its own scopes otherwise; both leave everything but the symbol table unchanged. Engine entry points (unit engine, relative to oracles for the join iterator, Rule::apply and expression evaluation): World::query_match / query_match_all hand their arguments unchanged to '
               'Rule::find_match / check_match_all; find_match is Ok(true) iff the rule application yields a first item that is a fact, Ok(false) iff it yields nothing, and the expression error otherwise; check_match_all is Ok(true) iff the body '
               'has AT LEAST ONE match and every match satisfies every expression (evaluated in order, each match with a fresh temporary symbol table), Ok(false) at the first false expression, InvalidType for a non-boolean one.' + _LOADB_PROVED,
     'not_covered': ['the join (CombineIt) and Rule::apply (closures over it): oracles; how the oracles m_one / m_all of unit authz relate to the oracles of unit engine is by name only (both describe World::query_match*)', 'the exact list and order of the failed checks in the error value',
-                    'builder -> Datalog conversion and symbol interning (oracles: the Datalog object is a function of the builder object)', 'query / query_all scoping (generic signatures not brought through Verus)'],
+                    'builder -> Datalog conversion and symbol interning (oracles: the Datalog object is a function of the builder object)', 'query / query_all: the prologue (run, remaining budget) and the conversion of derived facts to the caller type (iterator chains: oracle, rule A5)'],
     'assumptions': _ORIGIN_TRUST + _LOADB_ASSUME + ['World::query_match / query_match_all return what the oracles m_one / m_all say for (query, origin, trusted set); Check::convert / Rule::convert / scope conversion are functions of their argument',
                                     'time (Instant) is an uninterpreted input: a Timeout error may be returned at any check', 'Authorizer.blocks, when present, holds at least the authority block (requires blocks_nonempty)'],
     'level_text': 'Deductive proof of the scope computation and of the decision composition over all oracle outcomes; the engine answering the oracles is not verified.',
